@@ -246,3 +246,17 @@ func Name(salt, seed []byte, name string, out []byte) {
 	}
 	Event("hash", "salt", hex.EncodeToString(salt), "seed", hex.EncodeToString(seed), "name", name, "out", string(out))
 }
+
+// KeepSource saves the exact bytes handed to the compiler or assembler below
+// $GARBLE_VERIF_KEEPSRC/<import path>/<name>.
+func KeepSource(importPath, name string, content []byte) {
+	dir := os.Getenv("GARBLE_VERIF_KEEPSRC")
+	if dir == "" {
+		return
+	}
+	pkgDir := filepath.Join(dir, filepath.FromSlash(importPath))
+	if err := os.MkdirAll(pkgDir, 0o777); err != nil {
+		return
+	}
+	os.WriteFile(filepath.Join(pkgDir, name), content, 0o666)
+}
